@@ -236,6 +236,27 @@ func (r *Runner) doStep(act M) error {
 		res := c.DeliverRaw(r.rawTxs[k-1])
 		obs["result"], obs["failIdx"], obs["code"], obs["offs"], obs["panic"] = res.Result, res.FailIdx, res.Code, []any{}, res.Panic
 		extra["real"] = M{"log": res.Log}
+	case "Noise":
+		// mempool / gas-estimation traffic on the check state: CheckTx, ReCheckTx or Simulate of a transaction that is NOT delivered here
+		bz, _, _, early, err := r.buildTx(act["tx"].(M))
+		if err != nil {
+			return err
+		}
+		if early == nil {
+			var nr TxResult
+			switch str(act, "kind") {
+			case "check":
+				nr = c.CheckRaw(bz, false)
+			case "recheck":
+				nr = c.CheckRaw(bz, true)
+			default:
+				nr = c.SimulateRaw(bz)
+			}
+			obs["panic"] = nr.Panic
+			if nr.Panic {
+				r.panics++
+			}
+		}
 	case "GovSchedule":
 		ok, log := c.GovSchedule(int64(num(act, "amt")))
 		if !ok {
